@@ -346,6 +346,7 @@ def gen_struct(r, name, enums, fixed_structs, bits_types, allow_dynamic=True, nf
     if tags and (deps_focus or r.random() < 0.65):
         writable = {t: True for t in tags}
         vmax = {t: MAXDYN for t in tags}
+        transform = {t: False for t in tags}     # written through an inverted expression (`x + k`)
         for _ in range(r.randint(1, 3)):
             src = r.choice(tags + [n for n, _ in lay_int]) if r.random() < 0.35 else r.choice(tags)
             style = r.choice(["mul", "add", "alias", "bool", "bool"])
@@ -365,10 +366,15 @@ def gen_struct(r, name, enums, fixed_structs, bits_types, allow_dynamic=True, nf
                 f.sym = sym
                 lay_bool.append(nm)
             elif style == "alias":
+                if writable[src] and transform[src]:
+                    # an alias of a writable `x + k` field does not compile once its accessor is used
+                    # (open finding of C07: alias-of-virtual-field-uses-deleted-default-constructor);
+                    # such a module would be lost for this check
+                    src = r.choice(tags)
                 nm = fname("la")
                 f = Field(nm, None, 0, 0, virtual=("alias", src), attr=at)
                 f.sym = ("alias", src)
-                writable[nm], vmax[nm] = writable[src], vmax[src]
+                writable[nm], vmax[nm], transform[nm] = writable[src], vmax[src], transform[src]
                 lay_int.append((nm, vmax[nm]))
             elif style == "add":
                 nm = fname("lv")
@@ -377,7 +383,7 @@ def gen_struct(r, name, enums, fixed_structs, bits_types, allow_dynamic=True, nf
                           virtual=("expr", "%s + %d" % (src, k), (lambda vals, s=src, k=k: vals[s] + k), [src],
                                    writable[src]))
                 f.sym = ("+", src, k)
-                writable[nm], vmax[nm] = writable[src], vmax[src] + k
+                writable[nm], vmax[nm], transform[nm] = writable[src], vmax[src] + k, True
                 lay_int.append((nm, vmax[nm]))
             else:
                 nm = fname("lv")
@@ -385,7 +391,7 @@ def gen_struct(r, name, enums, fixed_structs, bits_types, allow_dynamic=True, nf
                 f = Field(nm, None, 0, 0, attr=at,
                           virtual=("expr", "%s * %d" % (src, k), (lambda vals, s=src, k=k: vals[s] * k), [src], False))
                 f.sym = ("*", src, k)
-                writable[nm], vmax[nm] = False, vmax[src] * k
+                writable[nm], vmax[nm], transform[nm] = False, vmax[src] * k, False
                 lay_int.append((nm, vmax[nm]))
             f.layout = True
             layout_fields.append(f)
